@@ -1,27 +1,80 @@
-(* C14, routing half - MCP tool calls are decided solely by the *-mcp rules (no match means {}) and
-   shell commands solely by the command / redirect rules: at the level of main() the two families
-   of rules, and the functions that evaluate them, are never consulted for the other kind of call.
-   Property theorems only; proofs are in Proofs/HookP.v. *)
+(* C14 - MCP and shell rules never interact: MCP tool calls are decided solely by the *-mcp rules (no
+   match means {}, the host's own flow applies) and shell commands solely by the command / redirect rules.
+   Three layers, one theorem group each (property theorems only; proofs are in Proofs/):
+     1. parsing   (Proofs/C11P.v, model Model/ConfigText.v): the *-mcp lists depend on the *-mcp lines
+        only, the shell lists on the shell lines only - under insertion, deletion, reordering of the others;
+     2. matching  (Proofs/RulesP.v, model Model/Rules.v): match_mcp = last matching *-mcp rule; rules
+        that do not match the tool name are inert;
+     3. routing   (Proofs/HookP.v, model Model/Hook.v): main() never consults one family - nor the
+        functions that evaluate it - for the other kind of call; no match => {}. *)
 From Coq Require Import List Bool NArith String.
 From DippyV Require Import Base.Str Base.Verdict Gen.Tables Model.Hook Proofs.HookP.
+From DippyV Require Model.ConfigText Model.Rules Proofs.C11P Proofs.RulesP.
 Import ListNotations.
+
+(* ---------------------------------------------------------------- 1. parsing *)
+Section Parse.
+  Import Model.ConfigText.
+  Theorem C14_parse_split_mcp : forall h expu ls ls',
+    filter (line_is (Some h) expu mcp_effect) ls = filter (line_is (Some h) expu mcp_effect) ls' ->
+    exists c c', parse_of_lines (Some h) expu ls = ConfigText.Ok c /\ parse_of_lines (Some h) expu ls' = ConfigText.Ok c' /\
+                 mcp_view c = mcp_view c'.
+  Proof. exact C11P.mcp_family. Qed.
+
+  Theorem C14_parse_split_shell : forall h expu ls ls',
+    filter (line_is (Some h) expu shell_effect) ls = filter (line_is (Some h) expu shell_effect) ls' ->
+    exists c c', parse_of_lines (Some h) expu ls = ConfigText.Ok c /\ parse_of_lines (Some h) expu ls' = ConfigText.Ok c' /\
+                 shell_view c = shell_view c'.
+  Proof. exact C11P.shell_family. Qed.
+
+  Theorem C14_parse_filter : forall h expu ls,
+    (exists c c', parse_of_lines (Some h) expu ls = ConfigText.Ok c /\
+                  parse_of_lines (Some h) expu (filter (line_is (Some h) expu mcp_effect) ls) = ConfigText.Ok c' /\ mcp_view c = mcp_view c') /\
+    (exists c c', parse_of_lines (Some h) expu ls = ConfigText.Ok c /\
+                  parse_of_lines (Some h) expu (filter (line_is (Some h) expu shell_effect) ls) = ConfigText.Ok c' /\ shell_view c = shell_view c').
+  Proof. exact (fun h expu ls => conj (C11P.mcp_family_filter h expu ls) (C11P.shell_family_filter h expu ls)). Qed.
+End Parse.
+Print Assumptions C14_parse_split_mcp.
+Print Assumptions C14_parse_split_shell.
+Print Assumptions C14_parse_filter.
+
+(* ---------------------------------------------------------------- 2. matching *)
+Theorem C14_mcp_last : forall rs tool,
+  Rules.match_mcp rs tool = Rules.last_such (Rules.mcp_rule_matches tool) rs.
+Proof. exact RulesP.mcp_last. Qed.
+Print Assumptions C14_mcp_last.
+Theorem C14_mcp_inert : forall rs1 r rs2 tool, Rules.mcp_rule_matches tool r = false ->
+  Rules.match_mcp (rs1 ++ r :: rs2) tool = Rules.match_mcp (rs1 ++ rs2) tool.
+Proof. exact RulesP.mcp_inert. Qed.
+Print Assumptions C14_mcp_inert.
+
+(* ---------------------------------------------------------------- 3. routing *)
 
 (* which call goes where is a function of the input alone: an MCP route is exactly a str tool_name
    with the mcp__ prefix (Claude / Gemini modes) ... *)
-Theorem C14_route_mcp : forall inp tn,
-  route_of false inp = Ok (RMcp tn) ->
+Theorem C14_route_mcp : forall cursor inp tn,
+  route_of cursor inp = Ok (RMcp tn) ->
   py_get inp $"tool_name" (JStr []) = Ok (JStr tn) /\ prefixb $"mcp__" tn = true.
 Proof. exact route_mcp_inv. Qed.
 Print Assumptions C14_route_mcp.
 
-(* ... and a shell route exactly a tool_name of SHELL_TOOL_NAMES, none of which has that prefix *)
+(* ... and a shell route through tool_name exactly a tool_name of SHELL_TOOL_NAMES, none of which has that prefix *)
 Theorem C14_route_shell : forall inp c,
-  route_of false inp = Ok (RShell c) ->
+  tool_route inp = Ok (RShell c) ->
   exists tn ti, py_get inp $"tool_name" (JStr []) = Ok (JStr tn) /\ In tn SHELL_TOOL_NAMES /\
                 prefixb $"mcp__" tn = false /\
                 py_get inp $"tool_input" (JObj []) = Ok ti /\ py_get ti $"command" (JStr []) = Ok c.
-Proof. exact route_shell_inv. Qed.
+Proof. exact tool_route_shell_inv. Qed.
 Print Assumptions C14_route_shell.
+
+(* every shell route is that, or the top-level command of an input without tool_name (Cursor's shape) *)
+Theorem C14_route_shell_cases : forall cursor inp c,
+  route_of cursor inp = Ok (RShell c) ->
+  (py_in $"tool_name" inp = Ok false /\ py_get inp $"command" (JStr []) = Ok c) \/
+  (py_in $"tool_name" inp = Ok true /\ tool_route inp = Ok (RShell c)) \/
+  (cursor = false /\ py_in $"tool_name" inp = Ok false /\ py_in $"command" inp = Ok false /\ tool_route inp = Ok (RShell c)).
+Proof. exact route_shell_inv. Qed.
+Print Assumptions C14_route_shell_cases.
 
 Section Worlds.
   Variables S G : Type.
